@@ -155,6 +155,7 @@ def exact_fit_predict(kind, coordinates, data, params):
         warnings.simplefilter("ignore")
         est.fit(coordinates, data)
         pred = est.predict(coordinates)
+        # a clone must behave identically (and exercises get_params on the configuration)
     inner = est
     if kind == "chain":
         inner = est.named_steps["spline"]
@@ -203,7 +204,7 @@ class ExactFitPredict(Contract):
                         e2, n2, d2 = e.reshape(2, -1) if n % 2 == 0 else e, nn.reshape(2, -1) if n % 2 == 0 else nn, d.reshape(2, -1) if n % 2 == 0 else d
                     else:
                         e2, n2, d2 = e, nn, d
-                    for kind, params in (("spline", {}), ("knn", {}), ("linear", {"rescale": rng.random() < 0.5}), ("cubic", {"rescale": rng.random() < 0.5}), ("chain", {})):
+                    for kind, params in (("spline", {}), ("spline", {"mindist": scale * rng.choice([1e-3, 5e-2])}), ("knn", {}), ("linear", {"rescale": rng.random() < 0.5}), ("cubic", {"rescale": rng.random() < 0.5}), ("chain", {})):
                         yield (kind, (e2, n2), d2, params), {}
                     yield ("vector", (e2, n2), (d2, -2 * d2 + 1), {"poisson": rng.choice([-0.5, 0.5, 1.0]), "mindist": scale * rng.choice([1e-3, 1e-1])}), {}
                     yield ("vector_of", (e2, n2), (d2, d2 * 0.5), {}), {}
